@@ -112,7 +112,7 @@ def audit(files):
             hits.append("%s: missing" % f)
             continue
         txt = open(p).read()
-        txt_nc = strip_comments(txt)
+        txt_nc = re.sub(r'"(?:[^"]|"")*"', '""', strip_comments(txt))   # string literals cannot declare anything
         for m in FORBIDDEN.finditer(txt_nc):
             hits.append("%s: %s" % (f, m.group(0)))
     return hits
